@@ -75,8 +75,22 @@ fn strong_case(cfg: &Config, idx: u64, r: &mut Rng, st: &mut Stats) {
     o.term_depth = if r.chance(1, 2) { 2 } else { 1 };
     o.max_rules = 2;
     o.extreme_numerals = r.chance(1, 6);
-    let l = gen_program(r, &o);
-    let rt = if r.chance(1, 2) { mutate_program(r, &l) } else { gen_program(r, &o) };
+    let (mut l, rt) = if r.chance(1, 2) {
+        // the pairs C03 uses as well: rewrites and mutants of one program, repeated rules,
+        // rules whose body is the negation of their head
+        let hostile_names = r.chance(1, 3);
+        gen_strong_with(r, StrongOpts { hostile_names, ..Default::default() })
+    } else {
+        let l = gen_program(r, &o);
+        let rt = if r.chance(1, 2) { mutate_program(r, &l) } else { gen_program(r, &o) };
+        (l, rt)
+    };
+    if r.chance(1, 6) {
+        // shapes on which an HT-level rewrite and its classical counterpart differ
+        let (p, n) = [("p", 0usize), ("q", 1), ("s", 0)][r.upto(3)];
+        let atom = if n == 0 { p.to_string() } else { format!("{p}(X)") };
+        l.push_str(&format!("\n{atom} :- {} {atom}.", ["not", "not not"][r.upto(2)]));
+    }
     let (Ok(lp), Ok(rp)) = (parse_program(&l), parse_program(&rt)) else { return };
     let mu = r.chance(1, 2);
     let mut fams = Vec::new();
@@ -155,7 +169,7 @@ pub fn run(cfg: &Config) -> i32 {
     let started = Instant::now();
     let budget = Duration::from_secs_f64(cfg.pick(13.0, 200.0) * cfg.scale);
     let t0 = Instant::now();
-    let mut stats = parallel(cfg, "strong", cfg.scaled(cfg.pick(600, 1_000_000)), budget, |idx, r, st| strong_case(cfg, idx, r, st));
+    let mut stats = parallel(cfg, "strong", cfg.scaled(cfg.pick(1000, 1_000_000)), budget, |idx, r, st| strong_case(cfg, idx, r, st));
     stats.add("wall_ms_strong", t0.elapsed().as_millis() as u64);
     let t1 = Instant::now();
     let s2 = parallel(cfg, "external", cfg.scaled(cfg.pick(4000, 1_000_000)), budget, |idx, r, st| external_case(cfg, idx, r, st));
